@@ -21,6 +21,9 @@ K2: in iter_patched_from_hunks every original line consumed under a context or r
 hunk line's contents and a mismatch raises PatchConflict before anything derived from that line is yielded; inserted
 lines are yielded from the hunk, context lines from the original; lines before a hunk and after the last hunk are passed
 through unchanged.
+Added while testing against seeded changes: Also (K8 by abstract evaluation): HunkLine.get_str terminates every line
+(unterminated contents carry their own marker); unified_diff_bytes' header is '@@ -<i1+1>,<len> +<j1+1>,<len> @@' for
+a grid of ranges including empty ones.
 Does not decide: that diff followed by patch is the identity (patiencediff and the Rust parser are outside this rule).
 """
 CLASSES = {"ContextLine": b" ", "InsertLine": b"+", "RemoveLine": b"-"}
